@@ -7,7 +7,9 @@ mod c05;
 mod c06;
 mod c07;
 mod c08;
+mod c09;
 mod c13;
+mod c14;
 mod c16;
 
 use simcore::report::{install_quiet_panic_hook, Tier};
@@ -37,7 +39,9 @@ fn main() {
             "C04" => c04::replay(r),
             "C05" => c05::replay(r),
             "C06" => c06::replay(r),
+            "C09" => c09::replay(r),
             "C13" => c13::replay(r),
+            "C14" => c14::replay(r),
             "C07" => c07::replay(r),
             "C08" => c08::replay(r),
             "C16" => c16::replay(r),
@@ -54,7 +58,9 @@ fn main() {
         "C04" => c04::run(tier),
         "C05" => c05::run(tier),
         "C06" => c06::run(tier),
+        "C09" => c09::run(tier),
         "C13" => c13::run(tier),
+        "C14" => c14::run(tier),
         "C07" => c07::run(tier),
         "C08" => c08::run(tier),
         "C16" => c16::run(tier),
